@@ -532,3 +532,23 @@ Example ex_handle : (* A at 100: SUBSCRIBE took 101; B at 100 holds 101 and 102;
   run_handle_on 100 RSub 100 [HReq (RPub 1 0); HReq (RPub 1 0)]
   = [OIssue 0 (RPub 1 0) 101; OIssue 0 (RPub 1 0) 102; OIssue 0 RSub 103].
 Proof. vm_compute; reflexivity. Qed.
+
+(* ================= identifiers are never stepped back ================= *)
+
+Definition is_hreq (e : hev) : bool := match e with HReq _ => true | HAck _ => false end.
+
+(* the identifiers handed out are a function of the number of newID calls only: how and when
+   requests END — acknowledged, abandoned by the caller, or failed because their write was rejected
+   — never moves the counter. Removing every end-of-request event from a history changes neither
+   the identifiers chosen nor the counter. (A change that "gives an identifier back" on an error
+   path breaks exactly this.) *)
+Lemma ids_ignore_ends s h :
+  auto_ids (run_seq s h) = auto_ids (run_seq s (filter is_hreq h)) /\
+  final_counter s h = final_counter s (filter is_hreq h).
+Proof.
+  revert s; induction h as [|e h IH]; intros s; [split; reflexivity|].
+  destruct e as [r|j]; cbn [filter is_hreq run_seq final_counter].
+  - destruct (issue1 s r) as [s' id] eqn:E. cbn [auto_ids fst].
+    destruct (IH s') as [H1 H2]. rewrite H1, H2. split; reflexivity.
+  - cbn [auto_ids]. apply IH.
+Qed.
